@@ -151,7 +151,7 @@ func cmdCheck(args []string) {
 	defer os.RemoveAll(dir)
 	opt := dischargeOpts{quickSecs: 10, fullSecs: 10, workdir: dir, jobs: runtime.NumCPU()}
 	if *tier == "thorough" {
-		opt.quickSecs, opt.fullSecs, opt.all = 20, 60, true
+		opt.quickSecs, opt.fullSecs, opt.all, opt.crossSecs = 20, 60, true, 5
 	}
 	// VERIF_SEED only permutes the dispatch order
 	if seed != 0 {
